@@ -535,9 +535,82 @@ func runC09(c *Ctx, r *Report) {
 				return true
 			})
 		}
+		// nonNegAtom: the atom establishes that the limit is non-negative; mentions decides which expressions carry the limit
+		var nonNegAtom func(a condAtom, mentions func(ast.Expr) bool, in *Fn, depth int) bool
+		nonNegAtom = func(a condAtom, mentions func(ast.Expr) bool, in *Fn, depth int) bool {
+			switch x := ast.Unparen(a.E).(type) {
+			case *ast.CallExpr:
+				// a predicate helper: `func hasLimit(n *int) bool { return n != nil && *n > -1 }`
+				if depth > 1 || !a.Truth {
+					return false
+				}
+				cf := p.Callee(in, x)
+				h := p.ByObj[cf]
+				if h == nil || h.Decl == nil || len(h.Body.List) != 1 {
+					return false
+				}
+				ret, ok := h.Body.List[0].(*ast.ReturnStmt)
+				if !ok || len(ret.Results) != 1 {
+					return false
+				}
+				bound := map[types.Object]bool{}
+				i := 0
+				for _, fld := range h.Decl.Type.Params.List {
+					for _, nm := range fld.Names {
+						if i < len(x.Args) && mentions(x.Args[i]) {
+							bound[p.ObjOf(h, nm)] = true
+						}
+						i++
+					}
+				}
+				inner := func(e ast.Expr) bool {
+					found := false
+					ast.Inspect(e, func(m ast.Node) bool {
+						if id, ok := m.(*ast.Ident); ok && bound[p.ObjOf(h, id)] {
+							found = true
+						}
+						return true
+					})
+					return found
+				}
+				for _, b := range splitCond(ret.Results[0], true) {
+					if nonNegAtom(b, inner, h, depth+1) {
+						return true
+					}
+				}
+				return false
+			case *ast.BinaryExpr:
+				if !mentions(x.X) {
+					return false
+				}
+				val, neg := "", false
+				switch y := ast.Unparen(x.Y).(type) {
+				case *ast.BasicLit:
+					val = y.Value
+				case *ast.UnaryExpr:
+					if lit, ok := y.X.(*ast.BasicLit); ok && y.Op == token.SUB {
+						val, neg = lit.Value, true
+					}
+				}
+				switch {
+				case x.Op == token.GTR && a.Truth && ((val == "1" && neg) || (!neg && val != "")):
+					return true
+				case x.Op == token.GEQ && a.Truth && !neg && val != "":
+					return true
+				case x.Op == token.LSS && !a.Truth && !neg && val != "":
+					return true
+				case x.Op == token.LEQ && !a.Truth && val == "1" && neg:
+					return true
+				}
+			}
+			return false
+		}
 		tf.Edge = func(cond ast.Expr, taken bool, f Facts) {
 			// the limit value is known non-negative: `limit > -1`, `limit >= 0`, `limit > 0` … on this edge
 			for _, a := range splitCond(cond, taken) {
+				if nonNegAtom(a, mentionsLimit, fn, 0) {
+					f["limited"] = true
+				}
 				be, ok := ast.Unparen(a.E).(*ast.BinaryExpr)
 				if !ok || !mentionsLimit(be.X) {
 					continue
